@@ -129,7 +129,7 @@ func c11World(t *testing.T, p c11Params) rt.Result {
 
 		var mu sync.Mutex
 		k := 0
-		faultOf := map[int]string{}   // dial index -> fault applied
+		faultOf := map[int]string{}       // dial index -> fault applied
 		doneAt := map[int]time.Duration{} // dial index -> completion time of the fault
 		var pending []int
 		okDialed := false
